@@ -178,8 +178,9 @@ func c19XOFMachine(t *rapid.T, ev *evProp, impl xofImpl) {
 				n = rapid.IntRange(0, 600).Draw(t, "n.any")
 			}
 			src := rapid.SliceOfN(rapid.Byte(), n, n).Draw(t, "src")
-			inplace := rapid.Bool().Draw(t, "inplace")
-			history = append(history, fmt.Sprintf("x%d.XORKeyStream(%d, inplace=%v) at offset %d", i, n, inplace, in.m.off))
+			layout := rapid.SampledFrom([]string{"separate", "separate", "inplace", "inplace", "inplace-longer-dst"}).Draw(t, "layout")
+			inplace := layout == "inplace"
+			history = append(history, fmt.Sprintf("x%d.XORKeyStream(%d, %s) at offset %d", i, n, layout, in.m.off))
 			ks := in.m.next(impl, n)
 			want := make([]byte, n)
 			for j := range want {
@@ -189,6 +190,18 @@ func c19XOFMachine(t *rapid.T, ev *evProp, impl xofImpl) {
 			if inplace {
 				dst = append([]byte(nil), src...)
 				in.x.XORKeyStream(dst, dst)
+			} else if layout == "inplace-longer-dst" {
+				// cipher.Stream: dst and src must overlap entirely or not at all; "entirely" includes a
+				// message encrypted in place inside a larger buffer (same start, dst longer than src)
+				extra := 1 + rapid.IntRange(0, 40).Draw(t, "extra")
+				buf := append(append([]byte(nil), src...), bytes.Repeat([]byte{0x5a}, extra)...)
+				in.x.XORKeyStream(buf, buf[:n])
+				for _, b := range buf[n:] {
+					if b != 0x5a {
+						fail(op, "XORKeyStream wrote past len(src) of an in-place message inside a larger buffer")
+					}
+				}
+				dst = buf[:n]
 			} else {
 				dst = make([]byte, n+rapid.IntRange(0, 3).Draw(t, "extra"))
 				in.x.XORKeyStream(dst, src)
@@ -473,7 +486,7 @@ func TestC19_IntBias(t *testing.T) {
 }
 
 const c19Rule = "three families. (XOF state machine) implementation in {blake2xb, blake2xs, keccak}, seed length from {0,1,16,31..33,63..65,100,127..129,200,300,any 0..300}, 1..30 steps over a growing set of instances from " +
-	"{Write(n), Read(n), XORKeyStream(n, in place or not), Reseed, Clone, Reset (factory-made instances only)}, chunk sizes from {0,1,2,31..33,63..65,127..129,135..137,200,256,600,any}; Write is only generated while nothing was read in the current epoch (documented panic otherwise); " +
+	"{Write(n), Read(n), XORKeyStream(n, separate buffers / in place / in place inside a larger buffer), Reseed, Clone, Reset (factory-made instances only)}, chunk sizes from {0,1,2,31..33,63..65,127..129,135..137,200,256,600,any}; Write is only generated while nothing was read in the current epoch (documented panic otherwise); " +
 	"every output is compared with a single-shot reference computed from scratch on golang.org/x/crypto (seed, all absorbed data, one Read of offset+n bytes); Reseed = new instance keyed with the next 128 output bytes; Reset = back to New(seed). " +
 	"(random.New) 1..4 readers full/short/failing with at least one delivering 32 bytes: no panic, deterministic, unaffected by unread bytes, changed by any flipped consumed byte. (random.Bits/Int) bit lengths 0..1030, moduli of 1..521 bits incl. 1, 2, 2^k, 2^k±1, adversarial streams: range, exact bit length, function of consumed bytes; bias decided exhaustively over all 1-/2-byte prefixes. " +
 	"non-trivial = a machine run containing Reseed/Clone/Reset or a read straddling a 64-byte block boundary; several or partly failing readers; non-byte-aligned or exact Bits; non-power-of-two modulus; distinct = distinct rendered case" +
